@@ -69,6 +69,24 @@ def make_row(rng, cls, style, par):
     raise ValueError(cls)
 
 
+def _rows_out(d, purity):
+    res = []
+    for k in range(len(d)):
+        cn = None
+        if "cn" in d.columns:
+            cn = int(d["cn"].iat[k])
+        ratio = None
+        if purity is not None and purity and purity < 1.0:
+            ratio = frac(2.0 ** float(d["log2"].iat[k]))
+        c1 = c2 = None
+        if "cn1" in d.columns:
+            a, b = d["cn1"].iat[k], d["cn2"].iat[k]
+            c1 = None if (a is None or (isinstance(a, float) and math.isnan(a)) or a != a) else int(a)
+            c2 = None if (b is None or (isinstance(b, float) and math.isnan(b)) or b != b) else int(b)
+        res.append([cn, ratio, c1, c2])
+    return res
+
+
 def run_impl(case):
     import numpy as np
     from cnvlib.cnary import CopyNumArray as CNA
@@ -87,32 +105,56 @@ def run_impl(case):
             row.append(float("nan") if r[5] is None else float(Fraction(r[5])))
     cna = CNA.from_rows([tuple(x) for x in data], columns=cols, meta_dict={"sample_id": "S"})
     purity = None if i["purity"] is None else i["purity_f"]
+    if i.get("cli"):
+        # end to end through the command line: write a .cns, run `cnvkit.py call`, read the result back
+        import os, shutil, tempfile
+        from skgenome import tabio
+        from cnvlib import commands
+        from cnvlib.cmdutil import read_cna
+        os.makedirs("/var/tmp/verif-call", exist_ok=True)
+        d = tempfile.mkdtemp(dir="/var/tmp/verif-call")
+        try:
+            fin, fout = os.path.join(d, "S.cns"), os.path.join(d, "S.call.cns")
+            tabio.write(cna, fin)
+            argv = ["call", fin, "-m", i["method"], "--ploidy", str(i["ploidy"]), "-o", fout,
+                    "-x", "female" if i["female"] else "male", "-t=" + ",".join(repr(t) for t in i["thr_f"])]
+            if purity is not None:
+                argv += ["--purity", repr(purity)]
+            if i["hapX"]:
+                argv.append("-y")
+            if i["par"]:
+                argv += ["--diploid-parx-genome", i["par"]]
+            args = commands.parse_args(argv)
+            args.func(args)
+            rr = read_cna(fin).data
+            reread = [[str(r.chromosome), int(r.start), int(r.end), float(r.log2),
+                       (None if not i["has_baf"] or r.baf != r.baf else float(r.baf))] for r in rr.itertuples()]
+            return {"cli_rows": reread, "out": _rows_out(read_cna(fout).data, purity)}
+        finally:
+            shutil.rmtree(d, ignore_errors=True)
     out = call.do_call(cna, None, i["method"], i["ploidy"], purity, i["hapX"], i["female"], i["par"],
                        None, tuple(i["thr_f"]))
-    res = []
-    d = out.data
-    n = len(d)
-    for k in range(n):
-        cn = None
-        if "cn" in d.columns:
-            cn = int(d["cn"].iat[k])
-        ratio = None
-        if purity is not None and purity and purity < 1.0:
-            ratio = frac(2.0 ** float(d["log2"].iat[k]))
-        c1 = c2 = None
-        if "cn1" in d.columns:
-            a, b = d["cn1"].iat[k], d["cn2"].iat[k]
-            c1 = None if (a is None or (isinstance(a, float) and math.isnan(a)) or a != a) else int(a)
-            c2 = None if (b is None or (isinstance(b, float) and math.isnan(b)) or b != b) else int(b)
-        res.append([cn, ratio, c1, c2])
-    return res
+    return _rows_out(out.data, purity)
 
 
 def to_line(case, impl):
     i = case["in"]
-    line = {"op": "call", "in": {k: v for k, v in i.items() if not k.endswith("_f")}}
-    if not (isinstance(impl, dict) and "__error__" in impl):
-        line["impl"] = impl
+    line = {"op": "call", "in": {k: v for k, v in i.items() if not k.endswith("_f") and k != "cli"}}
+    if isinstance(impl, dict) and "__error__" in impl:
+        return line
+    if isinstance(impl, dict) and "cli_rows" in impl:
+        # the command line reads the table from a file: rows arrive sorted and with their log2 as written (%.6g)
+        key_n = {}
+        for r, n in zip(i["rows"], i.get("n") or [None] * len(i["rows"])):
+            k = (r[0], r[1], r[2])
+            key_n[k] = n if k not in key_n else None
+        line["in"]["rows"] = [[c, s, e, frac(lg), frac(2.0 ** lg), None if b is None else frac(b)]
+                              for c, s, e, lg, b in impl["cli_rows"]]
+        # the expected n is dropped: it was derived from the unrounded log2 (the model is compared instead)
+        line["in"]["n"] = [None for _ in impl["cli_rows"]]
+        line["impl"] = impl["out"]
+        return line
+    line["impl"] = impl
     return line
 
 
@@ -124,6 +166,10 @@ def judge_with(clauses_of_interest):
             return [], ["model error: " + resp["error"]], None
         spec = [c for c in (resp.get("spec") or []) if c in clauses_of_interest]
         out = resp["out"]
+        rtol = 1e-9
+        if isinstance(impl, dict) and "cli_rows" in impl:
+            impl = impl["out"]
+            rtol = 5e-5  # the rewritten log2 went through a file: 6 significant digits
         slack = [Fraction(s) for s in resp["slack"]]
         disagree = []
         knife = None
@@ -141,7 +187,7 @@ def judge_with(clauses_of_interest):
                 break
             if m[1] is not None:
                 a, b = float(Fraction(im[1])), Fraction(m[1])
-                if abs(a - float(b)) > 1e-9 * max(1.0, abs(float(b))):
+                if abs(a - float(b)) > rtol * max(1.0, abs(float(b))):
                     disagree.append(f"row {k}: ratio model {float(b)} impl {a}")
                     break
         return spec, disagree, (knife if not disagree and not spec else None)
